@@ -39,6 +39,12 @@ P = {
  "C09": ("Certificate theory at exact rationals for all dimensions: C09_weak_duality, C09_legal_optimal_is_optimal (+ tolerance version), C09_standard_form_equiv (lower-bound shift and upper-bound slack rows), C09_optimal, C09_phase1_infeasible, C09_infeasible_vacuous (no return site carries LpStatus::Infeasible), dual/warm-start form: partial theorem + counterexamples. Tie: for every LP the harness prints data (bit patterns), status, x, objective and the returned basis; the Lean driver recomputes x_B and y from the basis by exact elimination and evaluates the verified checker; an independent exact vertex-enumeration oracle decides feasibility/optimality of the implementation's answer.",
          "Lean 4 proof (LP duality / certificate checking over Rat) with per-run certificate validation and exact-arithmetic oracle",
          "The pivoting rules and LU factorisation are not modelled; legality of each terminal state is validated per run, not proved for all runs."),
+ "C10": ("Theorems about the lowering model (Model/Lower.lean) for all expression trees: Expr.build_eval (smart constructors / constant folding / identities preserve evaluation), extractLinear_sound, linearise_sound, materializeLin_sem, applyVarEqBounds_sound, C10_linear_fragment (posting + lowering a list of simple comparisons yields propagators whose joint meaning is exactly the conjunction of the trees), C10_and_vv_sem, C10_or_same_var_sound, C10_aux_vars_partial (auxiliary variables are functionally determined, inside the inferred range); kernel-checked counterexamples for the recorded findings (or lowered as and, not ignored, nested != unchecked, auxiliary variable clipped). Tie: hook H2 returns the code's own lowered (Vars, Propagators) for random expression trees; compared exactly with the model's lowering, and the enumerated solution set is compared with direct evaluation of the tree.",
+         "Lean 4 proof (translation correctness by structural induction over expression trees) with differential correspondence of the lowering",
+         "Float operands and the mul/div/mod auxiliary constraints are covered by the correspondence and the API-level oracle, not by the linear-fragment theorem."),
+ "C19": ("Theorems for every state, slice and size: bitset_alldiff_sound / bitset_removed_unsupported / bitset_inconsistent_no_solution (assigned-value elimination + Hall sets, pigeonhole for any subset size, HashSet order irrelevant), hybrid_sound / hybrid_history_sound (invariant over any history of adds, removals, assigns, bound cuts, propagations), alldiff_prune_sound / _fail_sound / _checking / _contracting (AllDiff::prune on bounds), sparse_inconsistent_sound; kernel-checked counterexamples: sparse engine removes supported values, depends on hash order, panics; engines disagree on unsatisfiable families (partial theorem: they agree when a solution exists). Tie: all three engines driven op by op (add/remove/assign/cut/propagate) and compared exactly with the model, exhaustively for <=4 variables over <=5 values, randomly up to 8 variables incl. >128-value domains; brute-force all-different oracle.",
+         "Lean 4 proof (Hall/pigeonhole soundness, history invariant) with differential correspondence of the three engines",
+         "Sparse engine: the property is false of the code (known findings); claimed level covers the bit-set and hybrid engines and AllDiff::prune."),
  "C11": ("Lean 4 theorems about a model of SparseSet: well-formedness invariant and refinement to a plain mathematical set for every universe and every history of any length (C11_history_partial, C11_observers), with kernel-checked counterexamples for the two history shapes on which the pinned code violates the property (known findings). Tie: exact correspondence of full observable state (storage order, complement order, cached bounds) on random and exhaustive histories, plus a BTreeSet oracle.",
          "Lean 4 proof (invariant + refinement by induction over histories) with differential correspondence",
          "The guard `ok` of the partial theorem excludes restores after union_with and non-LIFO restores (known findings)."),
